@@ -63,7 +63,15 @@ func (v *env) after(kind string) {
 	if len(other) > 0 {
 		v.fail("spec-request:"+kind, "request not allowed by the distribution specification: %s", strings.Join(other, " | "))
 	}
-	if s := v.checkState(); s != "" {
+	s := v.checkState()
+	if v.collision {
+		if !v.failed {
+			v.res.Count("unjudged_referrers_index_identical_to_pool_manifest", 1)
+		}
+		v.failed = true // the history ends here, nothing is reported
+		return
+	}
+	if s != "" {
 		v.fail("state:"+kind, "registry state after %s differs from what the operation implies: %s", kind, s)
 	}
 }
